@@ -34,6 +34,8 @@ def sweep(run, repeat=1):
     i = 0
     for ui, ((ls, wo, avs), rr) in enumerate(zip(ua, ref)):
         cl = classes_of(ls)
+        if wo == "H3" and len(ls) > 1:
+            cl = sorted(cl + ["usage-continuation-lines"])
         utxt = " || ".join(D.show(l) for l in ls)
         for av, r in zip(avs, rr):
             recs.append(dict(lines=ls, with_opts=wo, usage=utxt, classes=cl, argv=av, ref=r, outs=impl[i], family=(ui >= nfam0)))
